@@ -175,13 +175,29 @@ def roundtrip_oracle(kw, raw, obs):
     return bad
 
 
+_LAST_EQ = {}
+
+
 def run_roundtrip(ctx, cases):
     """cases: list of keyword lists.  Returns the created tag blocks."""
     from pyais.messages import TagBlock
     rep = ctx.rep
     created = []
     asks = []
+    earlier_of = []
     for kw in cases:
+        # the most recent earlier create() call that gave some field a value EQUAL to one given now (1 == 1.0 == True,
+        # 0 == 0.0 == False: one dictionary key): a result remembered under the value alone only reproduces after that call
+        eq = []
+        for k, v in kw:
+            try:
+                prev = _LAST_EQ.get((k, v))
+                _LAST_EQ[(k, v)] = [[a, enc_value(b)] for a, b in kw]
+            except TypeError:       # unhashable value
+                prev = None
+            if prev is not None and prev not in eq:
+                eq.append(prev)
+        earlier_of.append(eq)
         try:
             raw = TagBlock.create(**dict(kw))
         except Exception as e:
@@ -220,7 +236,8 @@ def run_roundtrip(ctx, cases):
                     rep.disagree('H-tagblock', {'init': hx(raw)}, str(mview), str(iview))
         for comp, kind, text in roundtrip_oracle(kw, raw, obs):
             rep.violation({'entry': 'TagBlock.create+init', 'component': comp, 'kind': kind}, text,
-                          {'kind': 'roundtrip', 'kwargs': [[k, enc_value(v)] for k, v in kw]})
+                          {'kind': 'roundtrip', 'kwargs': [[k, enc_value(v)] for k, v in kw],
+                           'earlier_equal': earlier_of[i]})
         if i % 211 == 0:
             rep.sample({'clause': 'round trip', 'kwargs': {k: str(v) for k, v in kw}, 'created': raw.decode('utf-8', 'replace'),
                         'parsed': {k: (v.decode('utf-8', 'replace') if isinstance(v, bytes) else v)
@@ -575,6 +592,11 @@ def replay(ctx, data):
     kind = data['kind']
     if kind == 'roundtrip':
         kw = [(k, dec_value(v)) for k, v in data['kwargs']]
+        for e in data.get('earlier_equal') or []:          # the earlier calls with equal values, as in the recorded run
+            try:
+                TagBlock.create(**{k: dec_value(v) for k, v in e})
+            except Exception:      # noqa: BLE001
+                pass
         try:
             raw = TagBlock.create(**dict(kw))
         except Exception as e:
